@@ -33,14 +33,17 @@ LEVEL_TEXT = ('Partial (full for the algorithm in exact arithmetic; since round 
               'dissipated energy is >= 0 and the accumulated dissipation is non-decreasing (C11_history_dissipation_nonneg*, '
               'C11_accumulated_dissipation_monotone), and a hold after ANY history from the virgin state relaxes monotonically '
               '(C11_relaxation_after_history, C11_relaxation_after_history_total). '
-              'NOT proved: that TensorMath.eigen_sym33_unit meets the contract in binary64 (accuracy of the routine is C12; it does NOT inside a compiled '
-              'batch on near-degenerate spectra: C12 finding EIGVMAP, whose consequence for this property is the open finding C11-F1: under jit(vmap) the '
-              'stored energy of a uniaxial state grows during a hold) and that jax.scipy.linalg.expm (Pade, scaling and squaring) equals the spectral '
+              'NOT proved: that TensorMath.eigen_sym33_unit meets the contract in binary64 (accuracy of the routine is C12; inside a compiled batch it did '
+              'NOT on (nearly) degenerate spectra until /repo e63b801 -- former finding C11-F1, now FIXED: under jit(vmap) the stored energy of a uniaxial '
+              'state grew during a hold; its witness is replayed on every run and a recurrence is a violation, and no failure at a degenerate point of a '
+              'batch is excused any more) and that jax.scipy.linalg.expm (Pade, scaling and squaring) equals the spectral '
               'exponential (true only up to the Pade truncation error): both are evaluated numerically on every run (stream `spectral`: contract gap of '
               'the oracles of two different solvers, model vs implementation, degenerate spectra included), and their consequences Hexp / Hcoax on every '
               'explored history. Binary64 behaviour is covered only by the correspondence and by evaluating the conclusions on the real models (public '
               'interface only) over dt/tau in [1e-6, 1e6], including large-rotation load steps followed by holds, degenerate-spectrum (uniaxial, '
-              'equibiaxial, volumetric) load-and-hold histories, and batches of two material points through jit(vmap) compared with the single call.')
+              'equibiaxial, volumetric) load-and-hold histories, and batches of two material points through jit(vmap) -- exactly and NEARLY degenerate '
+              '(relative stretch gap 1e-14..1e-6) and generic ones -- whose dissipation, det Fv, monotone relaxation and agreement with the single '
+              'compiled call are checked at the same tolerances as everywhere else.')
 TECHNIQUE = 'Coq proof (Reals) over kernels regenerated from the Python AST, opaque spectral functions as parameters; vm_compute/PrimFloat correspondence'
 GEN = ['TensorMath', 'HyperViscoelastic', 'MultiBranchHyperViscoelastic', 'ViscoState']
 TARGETS = ['model/M_C11.vo', 'model/M_C11s.vo', 'proofs/L_C11a.vo', 'proofs/L_C11.vo', 'proofs/L_C11s.vo', 'proofs/L_C11t.vo', 'proofs/L_C11e.vo', 'proofs/L_C11u.vo']
@@ -70,7 +73,9 @@ RULE = ('cases: random positive moduli and relaxation times over four decades, d
         'followed by 3..8 holds, multi-step random deformation histories followed by held segments, and step-size sweeps on a virgin material; '
         'round 4: every fifth spectral case and a separate L2 stream use DEGENERATE spectra (two or three equal principal stretches, aligned with the axes or '
         'rotated, with or without a rigid rotation), the spectral model is additionally fed with the eigen-pairs of a second solver (numpy/LAPACK), and '
-        'batches of two material points (degenerate, every third batch generic) are run through jit(vmap) of the public interface and compared with the single call.  Non-trivial = deformation with a deviatoric logarithmic strain above 1e-3; distinct = distinct (model, properties, history) tuples')
+        'batches of two material points (degenerate -- half of the points only NEARLY so, relative stretch gap 1e-14..1e-6 --, every third batch generic) are run through '
+        'jit(vmap) of the public interface and compared with the single call; round 5: every degenerate load-and-hold history of the L2 stream is also run inside a '
+        'compiled batch of two (mate: a copy, another degenerate state or a generic one, either position).  Non-trivial = deformation with a deviatoric logarithmic strain above 1e-3; distinct = distinct (model, properties, history) tuples')
 IMPORTS = ['From OV.gen Require Import Gen_TensorMath Gen_HyperViscoelastic Gen_MultiBranchHyperViscoelastic Gen_ViscoState.',
            'From OV.model Require Import M_C08 M_C11 M_C11s.']
 
@@ -643,16 +648,22 @@ def l2_rotation(ctx, r, count):
     return nbad, keys
 
 
-def degenerate_F(r):
+def degenerate_F(r, near=False):
     """a deformation whose right stretch has a DEGENERATE spectrum: two equal principal stretches (uniaxial / equibiaxial: the same
     family with a <> c) or three (volumetric), in the coordinate frame or a rotated one, optionally with a superposed rigid rotation.
+    near=True (batched streams only): one of the two equal stretches is perturbed by a relative 1e-14 .. 1e-6, the NEARLY degenerate
+    spectra on which the eigenvectors of a compiled batch were off by ~ eps/gap before /repo e63b801.
     Returns (F, kind)."""
     import numpy as np
     a, c = math.exp(r.uniform(0.1, 0.5) * r.choice([-1, 1])), math.exp(r.uniform(-0.2, 0.2))
     kind = r.choice(['aligned', 'rotated', 'rotated', 'volumetric'])
     Rf = rand_rot(r) if kind == 'rotated' else np.eye(3)
     perm = r.sample(range(3), 3)
-    d = np.array([a, c, c] if kind != 'volumetric' else [a, a, a])[perm]
+    d = np.array([a, c, c] if kind != 'volumetric' else [a, a, a])
+    if near:
+        d[2] *= 1.0 + 10 ** r.uniform(-14, -6)
+        kind += '+near'
+    d = d[perm]
     F = Rf @ np.diag(d) @ Rf.T
     if r.random() < 0.4:
         F = rand_rot(r) @ F
@@ -670,7 +681,11 @@ def spectrum_gap(F):
 def l2_degenerate(ctx, r, count):
     """round 4: load paths to a deformation with a degenerate spectrum (uniaxial, equibiaxial, volumetric) followed by holds, through
     the single compiled call and all clauses of run_history -- the states where an eigen-decomposition is not unique and only the
-    matrix FUNCTION is (C11_spectral_function_solver_independent); no earlier stream produced them"""
+    matrix FUNCTION is (C11_spectral_function_solver_independent); no earlier stream produced them.
+    Round 5 (after /repo e63b801): the final load step and the holds of every such history are ALSO run inside a compiled batch of two
+    (jit(vmap); the other point is a copy, another degenerate state or a generic one, before or after it) with all clauses of
+    run_batched at the normal tolerances -- nothing at a degenerate point of a batch is excused any more."""
+    import numpy as np
     keys = set()
     for k in range(count):
         nb = 1 if k % 2 == 0 else 3
@@ -688,6 +703,14 @@ def l2_degenerate(ctx, r, count):
         ctx.count('degenerate_spectrum_histories')
         ctx.count('degenerate_spectrum_%s' % kind)
         keys.add((label, tuple(props)))
+        # the same degenerate state inside a compiled batch (own random stream: the histories above stay what they were)
+        rb = ctx.rng('l2deg-batch-%d' % k)
+        mate = rb.choice(['copy', 'degenerate', 'generic'])
+        F2 = np.array(F) if mate == 'copy' else degenerate_F(rb)[0] if mate == 'degenerate' else rand_F(rb)
+        Fs = [F, F2] if rb.random() < 0.5 else [F2, F]
+        run_batched(ctx, nb, props, Fs, [s[1] for s in steps if s[0] is F], label)
+        ctx.count('degenerate_spectrum_histories_batched')
+        ctx.count('degenerate_spectrum_batch_mate_%s' % mate)
     return keys
 
 
@@ -768,7 +791,10 @@ def run_batched(ctx, nb, props, Fs, dts, label):
 
 
 def l2_batched(ctx, r, count):
-    """round 4: batches of two material points with degenerate spectra (plus, every third batch, generic ones) through jit(vmap)"""
+    """round 4: batches of two material points with degenerate spectra (plus, every third batch, generic ones) through jit(vmap).
+    Round 5 (after /repo e63b801, which repaired the batched eigen-solver): every clause of run_batched is CHECKED at the degenerate
+    points at the normal tolerances (no failure is excused by a known finding any more), and half of the degenerate points are
+    NEARLY degenerate (relative gap of two stretches 1e-14 .. 1e-6), where the batched eigenvectors used to be off by ~ eps/gap."""
     nbad = 0
     for k in range(count):
         nb = 1 if k % 4 != 3 else 3
@@ -776,7 +802,14 @@ def l2_batched(ctx, r, count):
         label = 'HyperViscoelastic' if nb == 1 else 'MultiBranchHyperViscoelastic'
         taus = [props[3 + 2 * n] for n in range(nb)]
         generic = (k % 3 == 2)
-        Fs = [rand_F(r) if generic else degenerate_F(r)[0] for _ in range(2)]
+        Fs = []
+        for _ in range(2):
+            if generic:
+                Fs.append(rand_F(r))
+            else:
+                F, kind = degenerate_F(r, near=r.random() < 0.5)
+                Fs.append(F)
+                ctx.count('batched_points_%s' % ('near_degenerate' if '+near' in kind else 'degenerate'))
         tau = r.choice(taus)
         dts = [10 ** r.uniform(-3, -0.5) * tau] + [10 ** r.uniform(-6, -2) * tau for _ in range(r.randrange(4, 9))]
         nbad += run_batched(ctx, nb, props, Fs, dts, label)
@@ -790,7 +823,7 @@ def l2(ctx):
     _, ks = l2_rotation(ctx, ctx.rng('l2rot'), ctx.n(8, 80))
     keys |= ks
     keys |= l2_degenerate(ctx, ctx.rng('l2deg'), ctx.n(6, 60))
-    l2_batched(ctx, ctx.rng('l2batch'), ctx.n(4, 40))
+    l2_batched(ctx, ctx.rng('l2batch'), ctx.n(12, 60))
     r = ctx.rng('l2')
     for k in range(ctx.n(14, 150)):
         nb = 1 if k % 2 == 0 else 3
@@ -828,8 +861,7 @@ def search(ctx, reasons):
     c2.seed = ctx.seed + 1
 
     def best():
-        # failures that carry the signature of the open finding C11-F1 are not what a search is after
-        conc = [fl for fl in c2.failures if fl.get('concrete') and not matches_finding(fl, {'id': 'C11-F1'})]
+        conc = [fl for fl in c2.failures if fl.get('concrete')]
         for cl in CLAUSE_PRIORITY:
             for fl in conc:
                 if (fl.get('case') or {}).get('clause') == cl:
@@ -841,8 +873,17 @@ def search(ctx, reasons):
     return best()
 
 
+FIXED_CLAUSES = ('relaxation', 'batched-vs-single')
+
+
 def finding_fails(ctx, f):
-    """replay the witness of a known finding on the implementation (C11-F1: a batched history)"""
+    """replay the witness of a known finding on the implementation.
+    C11-F1 (fixed in /repo e63b801: TensorMath.eigen_sym33_non_unit evaluates the noise-valued in-plane direction once, so that the
+    eigenvectors of a (nearly) degenerate tensor stay orthonormal inside jit(vmap)): the stored history -- a batch of two material
+    points, one of them uniaxial, loaded in one step and then held -- is run through jit(vmap) and through the single compiled call,
+    in the stored order and with the two points swapped, with the clauses and the NORMAL tolerances of run_batched.  A stored
+    non-equilibrium energy that grows during the hold, or a batched value / state that differs from the single call, at ANY point of
+    the witness is a recurrence (the driver turns it into a `regression` failure = VIOLATION)."""
     import copy
     import optimism  # noqa: F401
     import numpy as np
@@ -852,19 +893,21 @@ def finding_fails(ctx, f):
     c2 = copy.copy(ctx)
     c2.failures, c2.counts, c2.cov, c2.samples, c2.notes = [], {}, {}, [], []
     nb = 1 if w['model'] == 'HyperViscoelastic' else 3
-    run_batched(c2, nb, w['props'], [np.array(F) for F in w['Fs']], w['dts'], w['model'])
-    return any(matches_finding(fl, f) and (fl.get('case') or {}).get('clause') == 'relaxation' for fl in c2.failures)
+    Fs = [np.array(F) for F in w['Fs']]
+    run_batched(c2, nb, w['props'], Fs, w['dts'], w['model'])
+    run_batched(c2, nb, w['props'], Fs[::-1], w['dts'], w['model'])
+    ctx.count('fixed_finding_witness_points_replayed', c2.counts.get('batched_points_checked', 0))
+    rec = [fl for fl in c2.failures if (fl.get('case') or {}).get('clause') in FIXED_CLAUSES]
+    for fl in rec[:2]:
+        ctx.log('C11-F1 recurs: %s' % fl['what'][:500])
+    return bool(rec)
 
 
 def matches_finding(fl, f):
-    """narrow signature of C11-F1: only the batched stream, only the relaxation clause or the batched-vs-single comparison, only at a point
-    whose F^T F has two (nearly) equal eigenvalues -- a negative dissipation, a determinant drift, or any failure at a generic point
-    inside a batch is NOT this finding"""
-    if f.get('id') != 'C11-F1':
-        return False
-    case = fl.get('case') or {}
-    return (fl.get('kind') == 'conclusion' and case.get('part') == 'history-batched' and case.get('clause') in ('relaxation', 'batched-vs-single')
-            and case.get('eig_gap') is not None and case['eig_gap'] <= 1e-6)
+    """C11 has no open finding.  C11-F1 (stored energy growing / differing from the single call at a degenerate point of a compiled
+    batch) is fixed (/repo e63b801), so NO failure is excused on its account: a failure of the relaxation clause or of the
+    batched-vs-single comparison at a point with two (nearly) equal principal stretches is a violation like any other."""
+    return False
 
 
 def replay(ctx, path):
